@@ -117,7 +117,12 @@ def run_case(case_no, case, now, workdir, ft):
     # one full cycle at Now
     ft.now = float(now)
     vr.rightNow = float(now)
-    lc.start_slice()
+    crash = ""
+    try:
+        lc.start_slice()
+    except Exception as e:       # the Spec knows no failing cycle: the exception is part of the observation
+        import traceback
+        crash = "%s: %s @ %s" % (type(e).__name__, str(e)[:160], traceback.format_exc().strip().splitlines()[-3].strip()[:160])
     st = lc.state
     finished = st["last-cycle-finished"]
     hist = lc._history_serializer.load()
@@ -128,7 +133,7 @@ def run_case(case_no, case, now, workdir, ft):
             sf = ShareFile(p) if typ == "immutable" else MutableShareFile(p)
             survivors.append({"id": sid, "type": typ, "leases": sorted(int(l.get_grant_renew_time_time()) for l in sf.get_leases())})
     shutil.rmtree(basedir, ignore_errors=True)
-    return {"built": built, "finished_cycle": finished, "survivors": survivors,
+    return {"built": built, "finished_cycle": finished, "survivors": survivors, "crash": crash,
             "examined": rec.get("examined-shares"), "configured": rec.get("configured-shares"), "actual": rec.get("actual-shares"),
             "corrupt": len(st.get("cycle-to-date", {}).get("corrupt-shares", []))}
 
